@@ -81,6 +81,7 @@ class PathRun:
         self.prefix = list(prefix)
         self.pos = 0
         self.trace = []
+        self.labels = []
         self.new_work = []
         self.pc = []
         self.heap = Heap(tag='H0')
@@ -155,6 +156,7 @@ class PathRun:
             return False
         if self.no_fork:
             raise NoForkAbort()
+        self.labels.append(label)
         if self.pos < len(self.prefix):
             d = self.prefix[self.pos]
             self.pos += 1
@@ -191,6 +193,7 @@ class PathRun:
             return 0
         if self.no_fork:
             raise NoForkAbort()
+        self.labels.append(label)
         if self.pos < len(self.prefix):
             d = self.prefix[self.pos]
             self.pos += 1
